@@ -138,9 +138,10 @@ ReadStringOutcomes(st, a) ==
 ReadPointerOutcomes(st, a) ==
   OpenOutside(st, InCell(st, a),
               Out(IF HasKey(st.ptrs, a) THEN ResVal(<<Get(st.ptrs, a)>>) ELSE ResNone, 0, st))
+\* (an address whose last label was removed one by one may be reported as "no labels" or as an empty list)
 ReadLabelsOutcomes(st, a) ==
-  OpenOutside(st, InCell(st, a),
-              Out(IF HasKey(st.labels, a) THEN ResVal(Get(st.labels, a)) ELSE ResNone, 0, st))
+  IF HasKey(st.labels, a) THEN OpenOutside(st, InCell(st, a), Out(ResVal(Get(st.labels, a)), 0, st))
+  ELSE { Out(ResNone, 0, st), Out(ResVal(<<>>), 0, st) } \cup (IF InCell(st, a) THEN {} ELSE { ErrOut(st) })
 
 WriteStringOutcomes(st, a, s) ==
   OpenOutside(st, InCell(st, a), Out(ResUnit, 0, [st EXCEPT !.text = Put(st.text, a, s)]))
@@ -162,6 +163,33 @@ WriteLabelsOutcomes(st, a, names) ==
               Out(ResUnit, 0, [st EXCEPT !.labels = Put(st.labels, a, names)]))
 DeleteLabelsOutcomes(st, a) ==
   OpenOutside(st, InCell(st, a), Out(ResUnit, 0, [st EXCEPT !.labels = Del(st.labels, a)]))
+
+\* ------------------------------------------------------------------ further observers and label editing
+\* (beyond the listed properties: conformance of these is reported as information, see DESIGN.md section 9)
+RemoveIdx(s, i) == SubSeq(s, 1, i - 1) \o SubSeq(s, i + 1, Len(s))
+\* delete_label(a, idx): idx is 0-based; removing the last name removes the bucket from the observable state
+DeleteLabelOutcomes(st, a, idx) ==
+  IF ~InCell(st, a) THEN { ErrOut(st), Out(ResUnit, 0, st) }
+  ELSE IF ~HasKey(st.labels, a) THEN { Out(ResUnit, 0, st) }
+  ELSE LET b == Get(st.labels, a) IN
+       IF idx < Len(b)
+       THEN { Out(ResUnit, 0, [st EXCEPT !.labels = IF Len(b) = 1 THEN Del(st.labels, a) ELSE Put(st.labels, a, RemoveIdx(b, idx + 1))]) }
+       ELSE { ErrOut(st) }
+\* reader.read_label(idx): the idx-th label at the cursor, cursor unchanged
+ReadLabelAtOutcomes(st, a, idx) ==
+  LET r == IF HasKey(st.labels, a) /\ idx < Len(Get(st.labels, a)) THEN ResVal(Get(st.labels, a)[idx + 1]) ELSE ResNone
+  IN OpenOutside(st, InCell(st, a), Out(r, 0, st))
+\* get_labels(): every (address, name) ordered by address, then by name
+AllEntries(st) == FlattenSeq([i \in 1..Len(st.labels) |-> [j \in 1..Len(st.labels[i][2]) |-> <<st.labels[i][1], st.labels[i][2][j]>>]])
+GetLabelsOutcomes(st) ==
+  { Out(ResVal(SortSeq(AllEntries(st), LAMBDA x, y : x[1] < y[1] \/ (x[1] = y[1] /\ LexLess(x[2], y[2])))), 0, st) }
+\* find_label_address(name): any address carrying that name
+FindLabelOutcomes(st, name) ==
+  LET as == { e[1] : e \in { AllEntries(st)[i] : i \in 1..Len(AllEntries(st)) } \cap { e \in { AllEntries(st)[i] : i \in 1..Len(AllEntries(st)) } : e[2] = name } }
+  IN IF as = {} THEN { Out(ResNone, 0, st) } ELSE { Out(ResVal(<<a>>), 0, st) : a \in as }
+\* pointer_destinations(): the set of pointer targets
+PointerDestinationsOutcomes(st) ==
+  { Out(ResVal(SortSeq(SetToSeq({ st.ptrs[i][2] : i \in 1..Len(st.ptrs) }), LAMBDA x, y : x < y)), 0, st) }
 
 \* ------------------------------------------------------------------ stream cursors (BinStreams)
 \* A stream call is the positional call at the cursor.  On success the cursor advances by the width of a
@@ -192,6 +220,11 @@ Outcomes(st, ev) ==
     [] ev.op = "write_label"     -> WriteLabelOutcomes(st, ev.a, ev.bs)
     [] ev.op = "write_labels"    -> WriteLabelsOutcomes(st, ev.a, ev.bs)
     [] ev.op = "delete_labels"   -> DeleteLabelsOutcomes(st, ev.a)
+    [] ev.op = "delete_label"    -> DeleteLabelOutcomes(st, ev.a, ev.n)
+    [] ev.op = "get_labels"      -> GetLabelsOutcomes(st)
+    [] ev.op = "find_label"      -> FindLabelOutcomes(st, ev.bs)
+    [] ev.op = "pointer_destinations" -> PointerDestinationsOutcomes(st)
+    [] ev.op = "s_read_label"    -> { [o EXCEPT !.pos = IF o.res.ok THEN ev.a ELSE AnyPos] : o \in ReadLabelAtOutcomes(st, ev.a, ev.n) }
     \* writer-side allocate: appends when the cursor is at the end, inserts otherwise; the cursor stays
     [] ev.op = "s_allocate"      -> { [o EXCEPT !.pos = IF o.res.ok THEN ev.a ELSE AnyPos] :
                                        o \in IF ev.a = Size(st) THEN AllocateAtEndOutcomes(st, ev.n)
